@@ -162,6 +162,53 @@ func counterHammer(r *Run, prop string) {
 	r.Hist("counter_hammer", "16 goroutines x 4000 calls x 2 counters")
 }
 
+// steadySpecies: a population file of several mutually incompatible species of identical organisms, reproduced
+// without any mutation or mating (offspring are copies and stay in their species), every organism scoring the
+// size of its species: each species expects exactly its own size, epoch after epoch, with no rounding involved.
+// That makes the quota arithmetic exact, so small stolen-baby pools meet donors that expect exactly what is asked
+// of them, a best species that is the only eligible donor, and the like - from the seventh turnover on, when the
+// species are old enough to be robbed.
+func steadySpecies(r *Run, prop string) {
+	for k := 0; k < r.N(8, 120); k++ {
+		nsp := 4 + r.Rng.Intn(5)
+		sizes := make([]int, nsp)
+		total := 0
+		for i := range sizes {
+			sizes[i] = 2
+			if i == 0 || r.Rng.Intn(4) == 0 {
+				sizes[i] = 3 + r.Rng.Intn(2)
+			}
+			total += sizes[i]
+		}
+		var sb strings.Builder
+		id := 0
+		for sp, size := range sizes {
+			mut := 10*sp + size
+			for m := 0; m < size; m++ {
+				id++
+				fmt.Fprintf(&sb, "genomestart %d\ntrait 1 0.1 0 0 0 0 0 0 0\nnode 1 1 1 1 NullActivation\nnode 2 1 1 3 NullActivation\nnode 3 1 0 2 SigmoidSteepenedActivation\n", id)
+				fmt.Fprintf(&sb, "gene 1 1 3 %d false 1 %d true\ngene 1 2 3 %d false 2 %d true\ngenomeend %d\n", mut, mut, mut, mut, id)
+			}
+		}
+		opts := baseOptions()
+		opts.PopSize, opts.CompatThreshold, opts.MutdiffCoeff, opts.AgeSignificance, opts.DropOffAge = total, 3, 1, 1, 100
+		opts.MutateOnlyProb, opts.MateOnlyProb, opts.InterspeciesMateRate = 1, 0, 0
+		opts.MutateAddNodeProb, opts.MutateAddLinkProb, opts.MutateConnectSensors = 0, 0, 0
+		opts.MutateLinkWeightsProb, opts.MutateRandomTraitProb, opts.MutateLinkTraitProb, opts.MutateNodeTraitProb = 0, 0, 0, 0
+		opts.MutateToggleEnableProb, opts.MutateGeneReenableProb = 0, 0
+		opts.BabiesStolen = 1 + r.Rng.Intn(4)
+		in := &epochInput{Prop: prop, Seed: r.Rng.Int63(), Opts: opts, Start: genomeText(readPlain(xorStart, 1)), Epochs: 9, FitRule: 10,
+			PopText: sb.String(), Parallel: k%3 == 2}
+		if prop == "C09" {
+			runPhased(r, in)
+		} else {
+			res := runHistory(r, in, nil, 0)
+			r.Hist("steady_species_epochs_run", bucket(res.epochsRun))
+		}
+		r.Count(fmt.Sprint("steady", sizes, opts.BabiesStolen), true)
+	}
+}
+
 func runEpochProp(r *Run, prop string) error {
 	r.Res.Rule = "populations spawned from three start genomes (PopSize 3..N, random option settings incl. stolen babies, both compat methods, " +
 		"drop-off ages that trigger stagnation and delta coding), fitness rules {distinct, heavy-tailed, single dominant; all-zero and constant for PopSize<=12}, " +
@@ -214,6 +261,7 @@ func runEpochProp(r *Run, prop string) error {
 	}
 	if prop == "C03" {
 		counterHammer(r, prop)
+		c03InterleavedAllocation(r)
 	}
 	if prop == "C03" {
 		// modular start genomes (control genes numbered right after the links): outside the Coq model of the
@@ -228,6 +276,25 @@ func runEpochProp(r *Run, prop string) error {
 				r.Hist("modular_start_epochs_run", bucket(res.epochsRun))
 			}
 		}
+	}
+	if prop == "C02" || prop == "C09" {
+		// small stolen-baby pools over long histories with many small species of steady fitness: a donor (a species
+		// older than five generations) can be asked for exactly what it expects
+		for i := 0; i < r.N(10, 200); i++ {
+			in := newEpochInput(r, prop, 28, 14, true)
+			in.Opts.PopSize = 12 + r.Rng.Intn(16)
+			in.Opts.BabiesStolen = 1 + r.Rng.Intn(4)
+			in.Opts.CompatThreshold = 0.2 + 0.6*r.Rng.Float64()
+			in.Opts.DropOffAge = 50
+			in.Epochs = 9 + r.Rng.Intn(6)
+			in.FitRule = []int{6, 0, 9}[r.Rng.Intn(3)]
+			res := runHistory(r, in, nil, 0)
+			r.Count(fmt.Sprint("small-pool", in.Seed), res.multi > 0)
+			r.Hist("small_stolen_pool_epochs_run", bucket(res.epochsRun))
+		}
+	}
+	if prop == "C02" || prop == "C09" {
+		steadySpecies(r, prop)
 	}
 	// the same guarantees under the parallel executor (goroutine per species; not schedule-reproducible, so
 	// Go-side oracle only; the race-freedom side of it is C16's subject)
@@ -358,6 +425,20 @@ func runPhasedProp(r *Run, prop string) error {
 	}
 	if prop == "C10" {
 		c10UnsortedGenes(r)
+		// modular champions (two modules): the unmodified copy includes the modules and their links
+		for i := 0; i < r.N(5, 60); i++ {
+			in := newEpochInput(r, prop, 40, 4, true)
+			if in.Opts.PopSize < 10 {
+				in.Opts.PopSize = 10
+			}
+			in.Opts.CompatThreshold = 6
+			starts := startGenomes()
+			if m := withModule(r.Rng, starts[r.Rng.Intn(len(starts))], true); m != nil {
+				in.Start = genomeText(m)
+				res := runPhased(r, in)
+				r.Count(fmt.Sprint("modular-champion", in.Seed), res.champs > 0)
+			}
+		}
 	}
 	// the tie between model and code for this check: whole-epoch correspondence through the public NextEpoch
 	cf := r.NewCaseFile(0, "Res F64 Genome Options GenomeLit EpochCases "+prop+"Cases", "epoch_case")
